@@ -16,6 +16,13 @@ def pvt_frame():
     return tables.hay(frame=True, pmax=14_000.0)
 
 
+def pvt_frame_b():
+    """A second fluid on the same pressure rows: viscosity rising faster with pressure (another diffusivity curve)."""
+    df = pvt_frame()
+    df["viscosity"] = df["viscosity"] * (1.0 + df["pressure"] / 7000.0)
+    return df
+
+
 def schedule(kind, n, p_i):
     k = np.arange(n)
     if kind == "constant":
@@ -107,7 +114,16 @@ def eval_objective(case):
         # history: same parameters, same table object, same days - another pressure history
         sched_b = schedule({"constant": "ramp", "stepwise": "constant", "ramp": "stepwise", "buildup": "ramp"}[case["sched"]], n, p_i)
         other = np.asarray(fpm._obj_function(prm, days, zero, pvt, sched_b), dtype=float)
+        # ... and the same parameters, days and pressure history with ANOTHER fluid table
+        pvt_b = pvt_frame_b()
+        fluid_b = np.asarray(fpm._obj_function(prm, days, zero, pvt_b, sched), dtype=float)
     nx = rec.nx[-1] if rec.nx else 80
+    rf_fb = forward(pvt_b, days, tau, p_i, sched, nx)
+    if not np.all(np.abs(fluid_b - M * rf_fb) <= 1e-8 * M):
+        viol.append(V("objective/forward-model-other-table", "an objective call with the same tau, M, p_initial, days and pressure "
+                      "history but another fluid table does not follow that table (max diff "
+                      f"{np.max(np.abs(fluid_b - M * rf_fb)):.3g}; the two tables differ by {np.max(np.abs(M * rf_fb - base)):.3g})",
+                      case=case))
     rf_b = forward(pvt, days, tau, p_i, sched_b, nx)
     if not np.all(np.abs(other - M * rf_b) <= 1e-8 * M):
         viol.append(V("objective/forward-model-after-history", "a second objective call with the same tau, M, p_initial, "
@@ -163,6 +179,8 @@ def eval_fit(case):
         gas[3] = -1.0                        # a negative correction counts as 'no production'
         gas[9] = np.nan                      # a missing rate as well
     prod = pd.DataFrame({"Days": days * 1.0, "Gas": gas, "Pressure": press, "Other": np.arange(n)})  # day 0 produces
+    if case.get("cols") == "permuted":       # columns are found by NAME: another order, an extra numeric column first
+        prod = prod[["Other", "Pressure", "Gas", "Days"]]
     if case.get("index") == "offset":        # a table cut out of a longer history: labels 100, 101, ...
         prod.index = np.arange(n) + 100
     elif case.get("index") == "dup":         # two files concatenated: labels 0..k-1 twice
@@ -264,7 +282,8 @@ def eval_fit(case):
             viol.append(V("fit/objective-minimised", "the residual the minimiser reports at the fitted parameters is not M x "
                           f"recovery factor - cumulative production (max diff {np.max(np.abs(res - want_res)):.3g})", case=case))
     return {"violations": viol[:3], "outcome": f"fit:{'f' if case['filter'] else 'n'}:{case['window']}",
-            "key": ("f", n, tau, M, p_i, case["sched"], case["filter"], case["window"], case["n_iter"], dirty, case.get("guess"))}
+            "key": ("f", n, tau, M, p_i, case["sched"], case["filter"], case["window"], case["n_iter"], dirty, case.get("guess"),
+                                                        case.get("index"), case.get("cols"))}
 
 
 def evaluate(case):
@@ -300,6 +319,8 @@ def cases(tier, seed):
     for tau, flt, w, idx in itertools.product(taus[:2], [True, False], [None, 3], [None, "offset", "dup"]):
         out.append({"kind": "fit", "tau": tau, "M": 1e3, "p_i": 6000.0, "sched": "buildup", "n": 40, "filter": flt, "window": w,
                     "n_iter": 4, "dirty": bool(flt), "index": idx, "guess": "below" if idx is None else "inside"})
+        if idx != "dup":
+            out.append(dict(out[-1], sched="ramp", cols="permuted"))
     out += [{"kind": "objective", "tau": 60.0, "M": 1e3, "p_i": 6000.0, "sched": "buildup", "n": 40, "dev": list(d)} for d in devs[:3]]
     # long histories (four years of daily data): anything that thins or batches the simulated days
     out += [{"kind": "objective", "tau": 180.0, "M": 5e4, "p_i": 9000.0, "sched": sc, "n": 1500, "dev": [1.0, 1.0, 1.0]}
